@@ -11,9 +11,9 @@ arguments (`(Lx, Ly)` for a 2-D class — `Lz` is ignored, present or not —, `
 class, `UnboundLocalError` when `Lz` is absent, `ValueError` for an unknown name), when `deform` is
 called (`code_deformation_name != "None"`), how `error_model` selects the noise direction and
 `noise_deformation_name` its deformation (`'None'` → `None`), which decoder class `decoder` selects
-and which keyword arguments it gets (`max_bp_iter` for 'BP-OSD' and 'MBP', `osd_order = 0` for
-'BP-OSD', `alpha`, `beta` for 'MBP', nothing else — in particular NOT `channel_update`, which the
-front end sends), what is passed to `decoder.decode` / `error_model.generate`, and how the answer is
+and which keyword arguments it gets (`max_bp_iter` for 'BP-OSD' and 'MBP', `osd_order = 0` and
+`channel_update = bool(content.get('channel_update', False))` for 'BP-OSD', `alpha`, `beta` for
+'MBP', nothing else; `old…` = the glue before the repair, which dropped `channel_update`), what is passed to `decoder.decode` / `error_model.generate`, and how the answer is
 built (`/decode`: the correction split at `code.n` into `x` / `z`; `/new-errors`: the whole vector,
 after the discarded `error_spec` comprehension, which can still raise).
 
@@ -143,8 +143,30 @@ def directionOf (dirs : List (String × Dir)) (v : JV) : Except String Dir := do
 
 /-! ### `/decode` -/
 
-/-- the `kwargs` dict of `send_correction`, in insertion order -/
-def decoderKwargs (decoder maxBpIter alpha beta : JV) : List (String × JV) :=
+/-- Python `bool(v)` of a JSON value -/
+def truthy : JV → Bool
+  | .null => false
+  | .bool b => b
+  | .num (.int i) => i != 0
+  | .num (.dec m _) => m != 0
+  | .num (.sym _) => true
+  | .str s => s != ""
+  | .arr l => !l.isEmpty
+  | .obj l => !l.isEmpty
+
+/-- the `kwargs` dict of `send_correction`, in insertion order; `channelUpdate` =
+    `content.get('channel_update')` (`none`: the request does not carry the field → `False`) -/
+def decoderKwargs (decoder maxBpIter alpha beta : JV) (channelUpdate : Option JV) :
+    List (String × JV) :=
+  (if inNames decoder ["BP-OSD", "MBP"] then [("max_bp_iter", maxBpIter)] else []) ++
+  (if isStr decoder "BP-OSD" then
+    [("osd_order", JV.i 0), ("channel_update", .bool (truthy (channelUpdate.getD (.bool false))))]
+   else []) ++
+  (if isStr decoder "MBP" then [("alpha", alpha), ("beta", beta)] else [])
+
+/-- the `kwargs` dict BEFORE the repair (fix PENDING): `channel_update` — the "Channel update (BP)"
+    box of the menu, sent by the front end — was neither read nor forwarded -/
+def oldDecoderKwargs (decoder maxBpIter alpha beta : JV) : List (String × JV) :=
   (if inNames decoder ["BP-OSD", "MBP"] then [("max_bp_iter", maxBpIter)] else []) ++
   (if isStr decoder "BP-OSD" then [("osd_order", JV.i 0)] else []) ++
   (if isStr decoder "MBP" then [("alpha", alpha), ("beta", beta)] else [])
@@ -185,7 +207,7 @@ def sendCorrection (L : Library Code EM Dec) (codes : List CodeMenu) (decs : Lis
   let code ← instantiateCode L codes content
   let dir ← directionOf dirs emName
   let em ← L.newErrorModel dir nd
-  let kwargs := decoderKwargs decoderName maxBpIter alpha beta
+  let kwargs := decoderKwargs decoderName maxBpIter alpha beta (getKey content "channel_update")
   let cls ← decoderClassOf decs decoderName
   let dec ← L.newDecoder cls code em p kwargs
   let correction ← L.decode dec syndrome
@@ -206,7 +228,8 @@ def selectDecode (codes : List CodeMenu) (decs : List DecoderMenu) (dirs : List 
   let code ← selectCode codes content
   let dir ← directionOf dirs emName
   let cls ← decoderClassOf decs decoderName
-  pure ⟨code, dir, noiseDeformation nd, cls, p, decoderKwargs decoderName maxBpIter alpha beta, syndrome⟩
+  pure ⟨code, dir, noiseDeformation nd, cls, p,
+    decoderKwargs decoderName maxBpIter alpha beta (getKey content "channel_update"), syndrome⟩
 
 /-- the library calls of `/decode` for a selection, in the order they are made, and the answer -/
 def runDecode (L : Library Code EM Dec) (sel : DecodeSel) : Except String JV := do
@@ -214,6 +237,28 @@ def runDecode (L : Library Code EM Dec) (sel : DecodeSel) : Except String JV := 
   let em ← L.newErrorModel sel.direction sel.noiseDeformation
   let dec ← L.newDecoder sel.decoderCls code em sel.p sel.kwargs
   let correction ← L.decode dec sel.syndrome
+  pure (splitAnswer (L.n code) correction)
+
+/-- `GUI.send_correction` BEFORE the repair (fix PENDING): identical except for the keyword
+    arguments (`oldDecoderKwargs`) -/
+def oldSendCorrection (L : Library Code EM Dec) (codes : List CodeMenu) (decs : List DecoderMenu)
+    (dirs : List (String × Dir)) (content : Req) : Except String JV := do
+  let syndrome ← field content "syndrome"
+  let p ← field content "p"
+  let nd ← field content "noise_deformation_name"
+  let maxBpIter ← field content "max_bp_iter"
+  let alpha ← field content "alpha"
+  let beta ← field content "beta"
+  let decoderName ← field content "decoder"
+  let emName ← field content "error_model"
+  let nd := noiseDeformation nd
+  let code ← instantiateCode L codes content
+  let dir ← directionOf dirs emName
+  let em ← L.newErrorModel dir nd
+  let kwargs := oldDecoderKwargs decoderName maxBpIter alpha beta
+  let cls ← decoderClassOf decs decoderName
+  let dec ← L.newDecoder cls code em p kwargs
+  let correction ← L.decode dec syndrome
   pure (splitAnswer (L.n code) correction)
 
 /-! ### `/new-errors` -/
@@ -300,6 +345,11 @@ def sendCodeNames (codes : List CodeMenu) (content : Req) : Except String (List 
 /-- the request fields `send_correction` reads itself or through `_instantiate_code` -/
 def decodeFieldsRead : List String :=
   ["syndrome", "p", "noise_deformation_name", "max_bp_iter", "alpha", "beta", "decoder",
+   "error_model", "Lx", "Ly", "Lz", "code_name", "code_deformation_name", "channel_update"]
+
+/-- the same before the repair -/
+def oldDecodeFieldsRead : List String :=
+  ["syndrome", "p", "noise_deformation_name", "max_bp_iter", "alpha", "beta", "decoder",
    "error_model", "Lx", "Ly", "Lz", "code_name", "code_deformation_name"]
 
 /-- the request fields `send_random_errors` reads -/
@@ -310,7 +360,11 @@ def newErrorsFieldsRead : List String :=
 /-- the option fields (`max_bp_iter`, `alpha`, `beta`, `channel_update`, …) that the route forwards
     to the constructor of the decoder with this menu name -/
 def forwardedOptions (decoder : String) : List String :=
-  ((decoderKwargs (.str decoder) .null .null .null).map (·.1)).filter (· != "osd_order")
+  ((decoderKwargs (.str decoder) .null .null .null none).map (·.1)).filter (· != "osd_order")
+
+/-- the same before the repair -/
+def oldForwardedOptions (decoder : String) : List String :=
+  ((oldDecoderKwargs (.str decoder) .null .null .null).map (·.1)).filter (· != "osd_order")
 
 /-- the body `getCorrection` of `main.js` posts to `/decode`, keys in the order written there -/
 def frontEndDecodeReq (codeName : String) (lx ly lz p maxBpIter alpha beta channelUpdate syndrome : JV)
